@@ -66,21 +66,8 @@ Consume ==
     /\ LET e == Rec[l] IN
        CASE e.k = "reset" -> QosOK(QosOf(e)) /\ Reset(QosOf(e))
          [] e.k = "op"    -> Clean(e) /\ Op(e)
-         [] e.k = "end"   -> (Idle \/ out.a \in {"panic", "skip"}) /\ UNCHANGED vars /\ PrintT(<<"KD_PATH", l, kd>>)   \* one line per explanation of the run
+         [] e.k = "end"   -> (Idle \/ out.a = "panic") /\ UNCHANGED vars /\ PrintT(<<"KD_PATH", l, kd>>)   \* one line per explanation of the run
          [] OTHER -> FALSE
-
-\* known-defect shape "stale-connection-key" (PubSub.tla GkInit): once the precondition occurred for some
-\* subscriber, the rest of the run may be given up; the run is then explained only through a TAGGED path
-RECURSIVE NextEnd(_)
-NextEnd(i) == IF i > NRec THEN NRec + 1 ELSE IF Rec[i].k = "end" THEN i ELSE NextEnd(i + 1)
-SkipRun ==
-    /\ AllowKnown
-    /\ l <= NRec /\ Rec[l].k = "op"
-    /\ \E s \in SubIds : gk.stale[s]
-    /\ l' = NextEnd(l)
-    /\ kd' = kd \cup {KD_StaleKey}
-    /\ out' = [a |-> "skip"]
-    /\ UNCHANGED <<sysvars, slog, regAt, rcvd, evicted, xlost, gk>>
 
 \* deliveries of a split send that need no handler call leave no record (bounded: snd.pend shrinks)
 Silent == l <= NRec /\ (\E s \in SubIds : Deliver(s)) /\ UNCHANGED l
@@ -88,7 +75,7 @@ Silent == l <= NRec /\ (\E s \in SubIds : Deliver(s)) /\ UNCHANGED l
 \* overlapping calls of concurrent executions: alternatives, see TraceIO.tla
 AltJump == IsAltRec(l) /\ l' \in AltTargets(l) /\ UNCHANGED vars
 
-TraceNext == Consume \/ AltJump \/ Silent \/ SkipRun
+TraceNext == Consume \/ AltJump \/ Silent
 TraceSpec == TraceInit /\ [][TraceNext]_tvars
 
 Progress == TraceProgress(l)
